@@ -11,6 +11,6 @@ CONSTANTS
   SignalOnWrite = @SIGW@
   SignalOnClose = @SIGC@
 SPECIFICATION Spec
-INVARIANTS ReplyOK InOrderOnce TypeOK BufferIsReadable ErrGiven NoLostWakeup
+INVARIANTS ReplyOK InOrderOnce TypeOK BufferIsReadable ErrGiven ErrQueryOK NoLostWakeup
 VIEW MCView
 CHECK_DEADLOCK TRUE
